@@ -179,6 +179,20 @@ impl Format {
         for (idx, char) in s.char_indices() {
             let next_idx = idx + char.len_utf8();
             let is_last = next_idx == s.len();
+            // The second separator of the previous token, in front of a weekday or month name: skip it here,
+            // because the branch below only fires for a name token once its own separator (or the end of the text) is reached.
+            if idx == prev_idx
+                && !is_last
+                && matches!(
+                    cur_token,
+                    Token::Weekday | Token::WeekdayShort | Token::MonthName | Token::MonthNameShort
+                )
+                && prev_item.second_sep_char_is(char)
+                && !cur_item.sep_char_is(char)
+            {
+                prev_idx = next_idx;
+                continue;
+            }
             // We should parse if:
             // 1. we're at the end of the string
             // 2. Or we've hit a non-numeric char and the token is fully numeric
